@@ -149,7 +149,7 @@ structure Instr where
   /-- referrers: (instruction id, kind) -/
   refs : List (Nat × Kind)
   ops  : List Operand
-  deriving Repr, Inhabited
+  deriving Repr, Inhabited, DecidableEq
 
 structure Block where
   idx    : Nat
